@@ -129,7 +129,7 @@ def run(ctx, cases_override=None):
                 raise MachineryError("vacuity guard: %s is never reached in the model" % inv)
     # ---------------------------------------------------------------- GEN
     if cases_override is None:
-        per_worker = (2000 if th else 130)
+        per_worker = (3500 if th else 130)
         gen = ctx.tlc("CommentSync", "CommentSync_Gen.cfg", workers=nw, simulate=per_worker, depth=40, deadlock=False,
                       timeout=3000, tag="gen")
         cases = [v[0] for v in prints(gen, "CASE")]
@@ -195,7 +195,7 @@ def run(ctx, cases_override=None):
         "evaluations": len(runs) + max(0, http_rec - len(http_cases)),
         "distinct_nontrivial": len(nontrivial),
         "rule": "GEN: TLC simulation of GenSpec (platform x maxComments 0..3 x body stripping x <=3 seeded comments "
-                "(matching, stale, foreign, twins) x 4 runs over subsets of 4 problems x 4 line variants, every second run "
+                "(matching, stale, foreign, twins) x REST padding x show-duplicates x 4 runs over subsets of 4 (6 with show-duplicates) problems x 4 line variants, every second run "
                 "repeats its predecessor); evaluations = reporting runs judged; non-trivial = runs in which Submit created, "
                 "deleted or deferred at least one comment",
         "exhaustive": False,
@@ -211,6 +211,7 @@ def run(ctx, cases_override=None):
         "a sample of the cases is repeated with the real GitLabReporter and GithubReporter talking REST to a fake server keeping the same store",
         "a comment 'carries' a problem when its body contains the problem's summary line; comment bodies are compared modulo surrounding newlines",
         "all problems are AnchorAfter problems on files that are part of the pull request diff; Create/Delete never fail",
+        "the line a problem is commented on is taken to be: last line of its range modified by the pull request, else the last line of the range; on GitHub the first modified line of the file when that line is not part of the diff",
     ], drift=drifts)
 
 
